@@ -143,17 +143,27 @@ fn run_mom<T: MomT>(steps: &[Step], line: &Value, e: &Embedding, rep: &mut Repor
         match s.kind.as_str() {
             "new" => obj = Some(T::new()),
             "default" => obj = Some(T::default_()),
-            "collect_val" => obj = Some(if xs.len() % 2 == 1 { T::collect_val_lazy(&xs) } else { T::collect_val(&xs) }),
-            "collect_ref" => obj = Some(T::collect_ref(&xs)),
+            // iterators that know their length, iterators that do not, and iterators that are not
+            // fused (a conforming consumer stops at the first None)
+            "collect_val" => obj = Some(if xs.len() % 3 == 2 { T::collect_resuming(&xs, false) } else if xs.len() % 2 == 1 { T::collect_val_lazy(&xs) } else { T::collect_val(&xs) }),
+            "collect_ref" => obj = Some(if xs.len() % 2 == 1 { T::collect_resuming(&xs, true) } else { T::collect_ref(&xs) }),
             // iterators that know their length and iterators that do not (size_hint lower bound 0)
             "extend_val" => {
-                if xs.len() % 2 == 1 {
+                if xs.len() % 3 == 2 {
+                    obj.as_mut().unwrap().extend_resuming(&xs, false)
+                } else if xs.len() % 2 == 1 {
                     obj.as_mut().unwrap().extend_val_lazy(&xs)
                 } else {
                     obj.as_mut().unwrap().extend_val(&xs)
                 }
             }
-            "extend_ref" => obj.as_mut().unwrap().extend_ref(&xs),
+            "extend_ref" => {
+                if xs.len() % 2 == 1 {
+                    obj.as_mut().unwrap().extend_resuming(&xs, true)
+                } else {
+                    obj.as_mut().unwrap().extend_ref(&xs)
+                }
+            }
             "add" => obj.as_mut().unwrap().add(xs[0]),
             k => panic!("step {k}"),
         }
@@ -210,7 +220,12 @@ fn run_minmax(steps: &[Step], line: &Value, e: &Embedding, rep: &mut Report) {
                 mx = Some(xs.iter().collect());
             }
             "extend_val" => {
-                mn.as_mut().unwrap().extend(xs.iter().copied());
+                if xs.len() % 2 == 0 {
+                    let w = with_poison(&xs);
+                    mn.as_mut().unwrap().extend(Resuming::new(&w, xs.len()).copied());
+                } else {
+                    mn.as_mut().unwrap().extend(xs.iter().copied());
+                }
                 max_ok = false;
                 for &x in &xs {
                     mx.as_mut().unwrap().add(x);
@@ -264,7 +279,9 @@ fn run_pair<T: PairT>(steps: &[Step], line: &Value, e: &Embedding, pattern: usiz
     let mut f = |xs: &[i64]| -> Vec<(f64, f64)> {
         xs.iter()
             .map(|&v| {
-                let w = if pattern == 0 {
+                let w = if pattern == 2 {
+                    0.7 // C16: a constant second coordinate with a full mantissa
+                } else if pattern == 0 {
                     [1.0, 0.0, 0.17, 2.5, 0.27][(pos + (v + 3) as usize) % 5]
                 } else if pos < 2 {
                     0.0
@@ -315,6 +332,17 @@ fn run_pair<T: PairT>(steps: &[Step], line: &Value, e: &Embedding, pattern: usiz
             "C08" | "C09" => {
                 if let Some(d) = cmp_obs_tol(&a, &b) {
                     viol(rep, T::NAME, &label, line, "ingestion", d);
+                }
+            }
+            "C16" => {
+                // constant streams only (the caller selects them): every statistic C16 fixes exactly
+                // (means exactly x, variances / covariance exactly 0, sentinels) must be what the
+                // add loop gives, bit for bit; weight sums are not C16's
+                let fixed = |n: &str| !matches!(n, "sum_weights" | "sum_weights_sq" | "effective_len" | "w.is_empty");
+                let fa: Vec<_> = a.iter().filter(|x| fixed(&x.0)).cloned().collect();
+                let fb: Vec<_> = b.iter().filter(|x| fixed(&x.0)).cloned().collect();
+                if let Some(d) = cmp_obs(&fa, &fb) {
+                    viol(rep, T::NAME, &label, line, "ingestion of a constant stream", d);
                 }
             }
             _ => {
@@ -383,6 +411,8 @@ mod cc {
     concatenate!(pub Stats3, [Variance, variance, mean, sample_variance, population_variance, error], [Kurtosis, kurt, kurtosis, skewness], [Max, max, max]);
     concatenate!(pub Est4, [Mean, mean], [Skewness, skewness], [Quantile, quantile], [Min, min]);
     concatenate!(pub Probes3, [Probe, a, count, hash, ident], [Probe, b2, ident_b], [Probe, c, count_c]);
+    // short syntax naming statistics that are NOT the estimator's headline (estimate()) value
+    concatenate!(pub Short3, [Variance, sample_variance], [Kurtosis, skewness], [Variance, error]);
 
     impl Probes3 {
         pub fn ids(&self) -> (u32, u32, u32) {
@@ -393,7 +423,7 @@ mod cc {
         }
     }
 }
-use cc::{Est4, MinMax2, Probes3, Stats3};
+use cc::{Est4, MinMax2, Probes3, Short3, Stats3};
 
 fn run_concat(steps: &[Step], line: &Value, e: &Embedding, rep: &mut Report) {
     // concatenate! structs implement new, default, FromIterator (value and reference) and add
@@ -407,6 +437,7 @@ fn run_concat(steps: &[Step], line: &Value, e: &Embedding, rep: &mut Report) {
     let mut a: Option<MinMax2> = None;
     let mut b: Option<Stats3> = None;
     let mut c: Option<Est4> = None;
+    let mut d: Option<Short3> = None;
     let mut p: Option<Probes3> = None;
     PROBE_LOG.with(|l| l.borrow_mut().clear());
     for s in steps {
@@ -417,37 +448,42 @@ fn run_concat(steps: &[Step], line: &Value, e: &Embedding, rep: &mut Report) {
                 a = Some(MinMax2::new());
                 b = Some(Stats3::new());
                 c = Some(Est4::new());
+                d = Some(Short3::new());
                 p = Some(Probes3::new());
             }
             "default" => {
                 a = Some(MinMax2::default());
                 b = Some(Stats3::default());
                 c = Some(Est4::default());
+                d = Some(Short3::default());
                 p = Some(Probes3::default());
             }
             "collect_val" => {
                 a = Some(xs.iter().copied().collect());
                 b = Some(xs.iter().copied().collect());
                 c = Some(xs.iter().copied().collect());
+                d = Some(xs.iter().copied().collect());
                 p = Some(xs.iter().copied().collect());
             }
             "collect_ref" => {
                 a = Some(xs.iter().collect());
                 b = Some(xs.iter().collect());
                 c = Some(xs.iter().collect());
+                d = Some(xs.iter().collect());
                 p = Some(xs.iter().collect());
             }
             "add" => {
                 a.as_mut().unwrap().add(xs[0]);
                 b.as_mut().unwrap().add(xs[0]);
                 c.as_mut().unwrap().add(xs[0]);
+                d.as_mut().unwrap().add(xs[0]);
                 p.as_mut().unwrap().add(xs[0]);
             }
             k => panic!("step {k}"),
         }
     }
-    let (a, b, c, p) = match (a, b, c, p) {
-        (Some(a), Some(b), Some(c), Some(p)) => (a, b, c, p),
+    let (a, b, c, d, p) = match (a, b, c, d, p) {
+        (Some(a), Some(b), Some(c), Some(d), Some(p)) => (a, b, c, d, p),
         _ => return,
     };
     // the underlying estimators fed the same sequence alone
@@ -481,6 +517,9 @@ fn run_concat(steps: &[Step], line: &Value, e: &Embedding, rep: &mut Report) {
         ("Est4", "skewness", c.skewness(), sk.skewness()),
         ("Est4", "quantile", c.quantile(), qu.quantile()),
         ("Est4", "min", c.min(), mn.min()),
+        ("Short3", "sample_variance", d.sample_variance(), var.sample_variance()),
+        ("Short3", "skewness", d.skewness(), ku.skewness()),
+        ("Short3", "error", d.error(), var.error()),
     ];
     for (ty, acc, got, want) in pairs {
         rep.evaluations += 1;
@@ -524,12 +563,19 @@ pub fn process_line(v: &Value, want_prop: &str, rep: &mut Report) {
     if rep.nontrivial.contains(&hs) {
         rep.sample(json!({"steps": v["steps"], "meaning_add_loop": v["data"]}));
     }
+    // C16: only constant streams (every observation the same value) are its business here
+    if want_prop == "C16" {
+        let d = v["data"].as_array().unwrap();
+        if d.is_empty() || d.iter().any(|x| x != &d[0]) {
+            return;
+        }
+    }
     // C08 / C09 / C17 judge by their own predicates, on the well-conditioned embedding only
-    let embs: &[&str] = if want_prop == "C20" { &["E0", "E5"] } else { &["E0"] };
+    let embs: &[&str] = if want_prop == "C20" { &["E0", "E5"] } else if want_prop == "C16" { &["E0", "E10"] } else { &["E0"] };
     for e in embeddings(embs) {
         let r = std::panic::catch_unwind(std::panic::AssertUnwindSafe(|| {
             let rep = &mut *rep;
-            if want_prop == "C20" {
+            if want_prop == "C20" || want_prop == "C16" {
                 run_mom::<average::Mean>(&steps, v, &e, rep);
                 run_mom::<average::Variance>(&steps, v, &e, rep);
                 run_mom::<average::Skewness>(&steps, v, &e, rep);
@@ -537,10 +583,13 @@ pub fn process_line(v: &Value, want_prop: &str, rep: &mut Report) {
                 run_mom::<average::Moments4>(&steps, v, &e, rep);
                 run_mom::<m5::M5>(&steps, v, &e, rep);
                 run_mom::<m10::M10>(&steps, v, &e, rep);
-                run_minmax(&steps, v, &e, rep);
-                run_concat(&steps, v, &e, rep);
+                if want_prop == "C20" {
+                    run_minmax(&steps, v, &e, rep);
+                    run_concat(&steps, v, &e, rep);
+                }
             }
-            for pattern in 0..2 {
+            let patterns: &[usize] = if want_prop == "C16" { &[0, 2] } else { &[0, 1] };
+            for &pattern in patterns {
                 if want_prop != "C09" {
                     run_pair::<average::WeightedMean>(&steps, v, &e, pattern, rep);
                     run_pair::<average::WeightedMeanWithError>(&steps, v, &e, pattern, rep);
